@@ -258,3 +258,24 @@ func genFailedCheckpoint(r *Rng, cfg *Config) []Op {
 	ops = append(ops, Op{Kind: "ls_sync_wait"})
 	return ops
 }
+
+// genQueuedOp emits a litestream operation that, right before it takes the
+// executor, is overtaken by a complete sync (and upload) of the same instance
+// with application commits on either side: what happens when two callers
+// queue for the executor.
+func genQueuedOp(r *Rng, cfg *Config) []Op {
+	ops := []Op{appOp(genTxn(r, cfg))}
+	op := Op{Kind: PickOf(r, []string{"ls_ckpt", "ls_ckpt", "ls_sync", "ls_snapshot", "ls_sync_wait"})}
+	if op.Kind == "ls_ckpt" {
+		op.Mode = ckptModes[r.Pick([]int{4, 2, 2, 3})]
+	}
+	site := "db:lock_exec"
+	if op.Kind == "ls_snapshot" && r.Chance(0.5) {
+		site = PickOf(r, []string{"snapshot:position_captured", "snapshot:before_write"})
+	}
+	t1, t2 := genTxn(r, cfg), genTxn(r, cfg)
+	t1.Rollback, t2.Rollback = false, false
+	op.Interpose = []Interpose{{Site: site, Nth: 1, Steps: []Step{t1, {K: "ls_nested_sync", N: r.Intn(2)}, t2}}}
+	ops = append(ops, op, Op{Kind: "ls_sync_wait"})
+	return ops
+}
